@@ -29,6 +29,12 @@ def make_cases(rng, tier):
         for _ in range(rng.randrange(3, 9)):
             ops.append({"op": rng.choice(["start", "start", "start", "delete", "nocache"])})
         cases.append({"depth": rng.randrange(0, 5), "ops": [{"op": "start"}] + ops})
+    # a cache whose certificate has outlived its lifespan (the first run creates it already expired): still THE cache
+    for rep in range(3 if tier == "quick" else 30):
+        ops = [{"op": "start", "life_s": -3600 * (rep + 1)}]
+        for _ in range(rng.randrange(3, 8)):
+            ops.append({"op": rng.choice(["start", "start", "start", "nocache"]), "life_s": rng.choice([0, 0, 1, -5])})
+        cases.append({"depth": rng.randrange(0, 5), "ops": ops})
     for k, c in enumerate(cases):
         c["i"] = k
     return cases
